@@ -218,6 +218,9 @@ def fault_configs(tier):
         ('ft_s2_NTR_stdlike', 'NTR', 'stdlike', [('small', 2, 'u32')]),
         ('ft_v_NTR_amcled', 'NTR', 'amcled', [('vector', 0, 'u32')]),
         ('ft_f3_NTR', 'NTR', 'stdlike', [('fixed', 3)]),
+        # element types whose MOVE operations may throw (relocation while growing, shifting, the temporary of emplace)
+        ('ft_s2_NTRM_stdlike', 'NTRM', 'stdlike', [('small', 2, 'u32')]),
+        ('ft_v_NTRM_amcled', 'NTRM', 'amcled', [('vector', 0, 'u32')]),
     ]
     t = [
         ('ft_v_TR_withrealloc', 'TR', 'withrealloc', [('vector', 0, 'u32')]),
@@ -225,6 +228,8 @@ def fault_configs(tier):
         ('ft_s1_TR_stdlike', 'TR', 'stdlike', [('small', 1, 'u32')]),
         ('ft_f2_TR', 'TR', 'stdlike', [('fixed', 2)]),
         ('ft_s2_NTRM_amcled', 'NTRM', 'amcled', [('small', 2, 'u32')]),
+        ('ft_f3_NTRM', 'NTRM', 'stdlike', [('fixed', 3)]),
+        ('ft_v_NTRM_withrealloc', 'NTRM', 'withrealloc', [('vector', 0, 'u32')]),
         ('ft_p_s2_NTR_amcled', 'NTR', 'amcled', [('small', 2, 'u32')] * 2),
     ]
     lst = q + (t if tier == 'thorough' else [])
